@@ -571,7 +571,252 @@ def gen_CylSegGen():
     write("CylSegGen", text, cylseg2lean.REL_SRC)
 
 
-GENERATORS = {"KernTrace": gen_KernTrace, "StyleTemp": gen_StyleTemp, "Const": gen_Const, "Units": gen_Units, "Defaults": gen_Defaults, "StyleSchema": gen_StyleSchema, "Attr": gen_Attr, "PathPad": gen_PathPad, "Exits": gen_Exits, "Ndim": gen_Ndim, "Tol": gen_Tol, "CylSegGen": gen_CylSegGen}
+def gen_ExcSync():
+    """the polarization / magnetization setters of BaseMagnet and its constructor (class_BaseExcitations.py), statement by
+    statement: which validator call fills the attribute, what happens on None, with WHICH operator and WHICH constant
+    expression the partner attribute is derived (the expression as a tree: integer and decimal literals, pi, products and
+    quotients, or a name bound to scipy's mu_0), the warning threshold; the order of the constructor's statements.  The model
+    (Model/Excitation.lean) takes operator, constant and threshold from here, so a changed relation changes the model; the
+    statement skeletons are pinned by `decide` theorems in Props/C02.lean."""
+    import ast
+    import decimal
+    import inspect
+    import math
+    import struct
+    import textwrap
+
+    import numpy as np
+
+    import magpylib
+    from magpylib._src.obj_classes import class_BaseExcitations as mod
+
+    cls_src = textwrap.dedent(inspect.getsource(mod.BaseMagnet))
+    cls = ast.parse(cls_src).body[0]
+    line0 = inspect.getsourcelines(mod.BaseMagnet)[1] - 1
+    glob = vars(mod)
+
+    def fn(name, deco=None):
+        for st in cls.body:
+            if isinstance(st, ast.FunctionDef) and st.name == name:
+                decos = [ast.unparse(d) for d in st.decorator_list]
+                if deco is None and not any(d.endswith(".setter") for d in decos) and (name == "__init__" or "property" in decos):
+                    return st
+                if deco is not None and deco in decos:
+                    return st
+        raise Refusal(f"BaseMagnet.{name} ({deco}) not found")
+
+    def cexpr(node):
+        """Lean term of type Exc.CExpr for a constant expression"""
+        if isinstance(node, ast.Constant) and isinstance(node.value, bool):
+            raise Refusal("boolean in the setter constant")
+        if isinstance(node, ast.Constant) and isinstance(node.value, int) and node.value >= 0:
+            return f"(.nat {node.value})"
+        if isinstance(node, ast.Constant) and isinstance(node.value, float) and node.value > 0:
+            d = decimal.Decimal(repr(node.value))
+            sign, digits, exp = d.as_tuple()
+            mant = int("".join(map(str, digits)))
+            if exp >= 0:
+                mant, exp = mant * 10**exp, 0
+            if mant >= 2**53 or 10 ** (-exp) >= 2**53 or float(mant) / float(10 ** (-exp)) != node.value:
+                raise Refusal(f"float literal {node.value!r} is not the correctly rounded quotient of two exact integers")
+            return f"(.dec {mant} {-exp})"
+        if isinstance(node, (ast.Attribute, ast.Name)):
+            txt = ast.unparse(node)
+            try:
+                val = eval(txt, dict(glob, math=math, np=np))  # noqa: S307
+            except Exception as e:
+                raise Refusal(f"cannot resolve {txt}: {e}") from e
+            if txt.split(".")[-1] == "pi" and val == math.pi:
+                return ".pi"
+            import scipy.constants
+
+            if isinstance(val, float) and val == float(magpylib.mu_0) == scipy.constants.mu_0:
+                return ".exported"
+            raise Refusal(f"name {txt} in the setter constant is neither pi nor the exported mu_0")
+        if isinstance(node, ast.BinOp) and isinstance(node.op, (ast.Mult, ast.Div)):
+            return f"(.{'mul' if isinstance(node.op, ast.Mult) else 'div'} {cexpr(node.left)} {cexpr(node.right)})"
+        raise Refusal(f"setter constant has an unsupported form: {ast.unparse(node)}")
+
+    def bits_of(node):
+        val = eval(compile(ast.Expression(node), "<c>", "eval"), dict(glob, math=math, np=np))  # noqa: S307
+        return struct.unpack("<Q", struct.pack("<d", float(val)))[0]
+
+    def is_self_attr(node, attr=None):
+        return (isinstance(node, ast.Attribute) and isinstance(node.value, ast.Name) and node.value.id == "self"
+                and (attr is None or node.attr == attr))
+
+    facts = {}
+
+    def setter_skeleton(f, own, other):
+        """own = attribute the setter stores, other = the derived one"""
+        arg = f.args.args[1].arg
+        out = []
+        for st in f.body:
+            if isinstance(st, ast.Expr) and isinstance(st.value, ast.Constant):
+                continue  # docstring
+            if (isinstance(st, ast.Assign) and len(st.targets) == 1 and is_self_attr(st.targets[0], own) and isinstance(st.value, ast.Call)
+                    and getattr(st.value.func, "id", "") == "check_format_input_vector" and len(st.value.args) == 1
+                    and getattr(st.value.args[0], "id", None) == arg):
+                kw = {k.arg: ast.unparse(k.value) for k in st.value.keywords if k.arg in ("dims", "shape_m1", "allow_None", "length", "reshape", "forbid_negative0")}
+                out.append(f"{own} := check_format_input_vector(arg, " + ", ".join(f"{k}={v}" for k, v in sorted(kw.items())) + ")")
+            elif (isinstance(st, ast.If) and isinstance(st.test, ast.Compare) and is_self_attr(st.test.left, own) and len(st.test.ops) == 1
+                  and isinstance(st.test.ops[0], ast.Is) and isinstance(st.test.comparators[0], ast.Constant) and st.test.comparators[0].value is None
+                  and not st.orelse and len(st.body) == 2 and isinstance(st.body[0], ast.Assign) and is_self_attr(st.body[0].targets[0], other)
+                  and isinstance(st.body[0].value, ast.Constant) and st.body[0].value.value is None and isinstance(st.body[1], ast.Return) and st.body[1].value is None):
+                out.append(f"if {own} is None: {other} := None; return")
+            elif (isinstance(st, ast.Assign) and len(st.targets) == 1 and is_self_attr(st.targets[0], other) and isinstance(st.value, ast.BinOp)
+                  and is_self_attr(st.value.left, own) and isinstance(st.value.op, (ast.Mult, ast.Div))):
+                op = "mul" if isinstance(st.value.op, ast.Mult) else "div"
+                facts[own] = (op, cexpr(st.value.right), bits_of(st.value.right), st.lineno + line0, ast.unparse(st.value.right))
+                out.append(f"{other} := {own} {op} CONST")
+            elif (isinstance(st, ast.If) and isinstance(st.test, ast.Compare) and len(st.test.ops) == 1 and isinstance(st.test.ops[0], ast.Lt)
+                  and ast.unparse(st.test.left) == f"np.linalg.norm(self.{own})" and isinstance(st.test.comparators[0], ast.Constant)
+                  and isinstance(st.test.comparators[0].value, int) and not st.orelse and len(st.body) == 1
+                  and ast.unparse(st.body[0]) == f"self.{own}_low_warning()"):
+                facts["threshold"] = st.test.comparators[0].value
+                out.append(f"if norm({own}) < THRESHOLD: warn")
+            else:
+                out.append("other: " + ast.unparse(st).replace("\n", " ")[:120])
+        return out
+
+    mag = setter_skeleton(fn("magnetization", "magnetization.setter"), "_magnetization", "_polarization")
+    pol = setter_skeleton(fn("polarization", "polarization.setter"), "_polarization", "_magnetization")
+    if "_magnetization" not in facts or "_polarization" not in facts:
+        raise Refusal("a setter no longer derives the partner attribute by `self._x (*|/) <constant>`")
+    # the low-norm warning: which category does the helper raise with
+    warn_fn = next((st for st in cls.body if isinstance(st, ast.FunctionDef) and st.name == "_magnetization_low_warning"), None)
+    warn_cat = "none"
+    if warn_fn is not None:
+        for nd in ast.walk(warn_fn):
+            if isinstance(nd, ast.Call) and ast.unparse(nd.func) == "warnings.warn" and len(nd.args) >= 2:
+                warn_cat = ast.unparse(nd.args[1])
+    getters = []
+    for name, attr in (("polarization", "_polarization"), ("magnetization", "_magnetization")):
+        g = fn(name)
+        body = [st for st in g.body if not (isinstance(st, ast.Expr) and isinstance(st.value, ast.Constant))]
+        getters.append(f"{name}: " + "; ".join(ast.unparse(st) for st in body))
+    # the constructor
+    init = fn("__init__")
+    ini = []
+    for st in init.body:
+        txt = ast.unparse(st).replace("\n", " ")
+        if isinstance(st, ast.Expr) and isinstance(st.value, ast.Call) and txt.startswith("super().__init__("):
+            ini.append("super().__init__")
+        elif isinstance(st, ast.Assign) and is_self_attr(st.targets[0]) and isinstance(st.value, ast.Constant) and st.value.value is None:
+            ini.append(f"{st.targets[0].attr} := None")
+        elif isinstance(st, ast.If):
+            def flat(body):
+                res = []
+                for b in body:
+                    if isinstance(b, ast.Assign) and is_self_attr(b.targets[0]) and isinstance(b.value, ast.Name):
+                        res.append(f"self.{b.targets[0].attr} = {b.value.id}")
+                    elif isinstance(b, ast.If) and not b.orelse and len(b.body) == 1 and isinstance(b.body[0], ast.Raise):
+                        exc = b.body[0].exc
+                        res.append(f"if {ast.unparse(b.test)}: raise {ast.unparse(exc.func) if isinstance(exc, ast.Call) else ast.unparse(exc)}")
+                    else:
+                        res.append("other: " + ast.unparse(b).replace("\n", " ")[:100])
+                return res
+            ini.append(f"if {ast.unparse(st.test)}: " + "; ".join(flat(st.body)) + (" else …" if st.orelse else ""))
+        else:
+            ini.append("other: " + txt[:120])
+
+    def strs(xs):
+        return "[" + ", ".join('"' + x.replace("\\", "\\\\").replace('"', '\\"') + '"' for x in xs) + "]"
+
+    exp_bits = struct.unpack("<Q", struct.pack("<d", float(magpylib.mu_0)))[0]
+    num, den = float(magpylib.mu_0).as_integer_ratio()
+    m, p = facts["_magnetization"], facts["_polarization"]
+    text = ("import MagpyVerif.Model.ExcBase\n"
+            "namespace MagpyVerif.Gen.ExcSync\nopen MagpyVerif.Exc\n\n"
+            f"/-- magnetization setter (line {m[3]}): `self._polarization = self._magnetization <op> ({m[4]})` -/\n"
+            f"def magToPolOp : BinOp := .{m[0]}\n"
+            f"def magToPolConst : CExpr := {m[1]}\n"
+            f"/-- the value of that expression as Python computes it (bit pattern of the double) -/\n"
+            f"def magToPolBits : UInt64 := {m[2]}\n\n"
+            f"/-- polarization setter (line {p[3]}): `self._magnetization = self._polarization <op> ({p[4]})` -/\n"
+            f"def polToMagOp : BinOp := .{p[0]}\n"
+            f"def polToMagConst : CExpr := {p[1]}\n"
+            f"def polToMagBits : UInt64 := {p[2]}\n\n"
+            "/-- the exported `magpylib.mu_0`: bit pattern and exact value as a quotient of integers -/\n"
+            f"def exportedBits : UInt64 := {exp_bits}\n"
+            f"def exportedNum : Nat := {num}\n"
+            f"def exportedDen : Nat := {den}\n\n"
+            "/-- `if np.linalg.norm(self._magnetization) < THRESHOLD: self._magnetization_low_warning()` -/\n"
+            f"def warnThreshold : Nat := {facts.get('threshold', 0)}\n"
+            f"def warnCategory : String := \"{warn_cat}\"\n\n"
+            "/-- the statements of the two setters, of the getters and of `BaseMagnet.__init__`, in source order -/\n"
+            f"def magSetter : List String := {strs(mag)}\n"
+            f"def polSetter : List String := {strs(pol)}\n"
+            f"def getters : List String := {strs(getters)}\n"
+            f"def init : List String := {strs(ini)}\n\n"
+            "end MagpyVerif.Gen.ExcSync\n")
+    write("ExcSync", text, "magpylib/_src/obj_classes/class_BaseExcitations.py:BaseMagnet (AST) and magpylib.mu_0")
+
+
+def gen_InOut():
+    """which core field functions accept the keyword `in_out` (getBH_level1 drops it for all others:
+    `if not has_parameter(field_func, "in_out"): kwargs.pop("in_out", None)`), the skeleton of that filter, and how the two
+    functions that accept it branch on its value"""
+    import ast
+    import inspect
+    import textwrap
+
+    from magpylib._src.fields import field_wrap_BH
+    from magpylib._src.fields.field_BH_tetrahedron import BHJM_magnet_tetrahedron, point_inside
+    from magpylib._src.fields.field_BH_triangularmesh import BHJM_magnet_trimesh
+    from magpylib._src.utility import get_registered_sources, has_parameter
+
+    rows = []
+    for name, c in sorted(get_registered_sources().items()):
+        ff = getattr(c, "_field_func", None)
+        f = getattr(ff, "__func__", ff)
+        if f is None:
+            rows.append((name, "none", False))
+        else:
+            rows.append((name, f.__name__, bool(has_parameter(f, "in_out"))))
+    # the level1 filter
+    l1 = ast.parse(textwrap.dedent(inspect.getsource(field_wrap_BH.getBH_level1))).body[0]
+    filt = [" ".join(ast.unparse(st).split()) for st in l1.body if isinstance(st, ast.If) and "in_out" in ast.unparse(st.test)]
+    calls = [" ".join(ast.unparse(st).split()) for st in l1.body if isinstance(st, ast.Assign) and "field_func(" in ast.unparse(st.value)]
+
+    def branches(fn_obj):
+        """every test on `in_out` in the function, in source order, with the first statement of its body"""
+        f = ast.parse(textwrap.dedent(inspect.getsource(fn_obj))).body[0]
+        out = []
+        for nd in ast.walk(f):
+            if isinstance(nd, ast.If) and "in_out" in ast.unparse(nd.test):
+                out.append((nd.lineno, f"if {ast.unparse(nd.test)}: {ast.unparse(nd.body[0]).splitlines()[0][:70]}" + (" [else]" if nd.orelse else "")))
+        return [t for _, t in sorted(out)]
+
+    def uses(fn_obj, callee):
+        f = ast.parse(textwrap.dedent(inspect.getsource(fn_obj))).body[0]
+        res = []
+        for nd in ast.walk(f):
+            if isinstance(nd, ast.If) and isinstance(nd.test, ast.Compare) and ast.unparse(nd.test.left) == "field":
+                for sub in ast.walk(nd):
+                    if isinstance(sub, ast.Call) and getattr(sub.func, "id", "") == callee:
+                        res.append(f"field {ast.unparse(nd.test.comparators[0])}: {ast.unparse(sub)}")
+        return res
+
+    def strs(xs):
+        return "[" + ", ".join('"' + x.replace("\\", "\\\\").replace('"', '\\"') + '"' for x in xs) + "]"
+
+    tab = "[" + ", ".join(f'("{a}", "{b}", {"true" if c else "false"})' for a, b, c in rows) + "]"
+    text = ("namespace MagpyVerif.Gen.InOut\n\n"
+            "/-- registered source class, name of its core field function, does that function have a parameter `in_out` -/\n"
+            f"def table : List (String × String × Bool) := {tab}\n\n"
+            "/-- the statement of getBH_level1 that removes `in_out` from the keyword arguments, and the call of the field function -/\n"
+            f"def level1Filter : List String := {strs(filt)}\n"
+            f"def level1Call : List String := {strs(calls)}\n\n"
+            "/-- the tests on `in_out` in `point_inside` (Tetrahedron) and in `BHJM_magnet_trimesh`, in source order -/\n"
+            f"def pointInsideBranches : List String := {strs(branches(point_inside))}\n"
+            f"def tetraUses : List String := {strs(uses(BHJM_magnet_tetrahedron, 'point_inside'))}\n"
+            f"def trimeshBranches : List String := {strs(branches(BHJM_magnet_trimesh))}\n\n"
+            "end MagpyVerif.Gen.InOut\n")
+    write("InOut", text, "magpylib/_src/fields/field_wrap_BH.py:getBH_level1, field_BH_tetrahedron.py, field_BH_triangularmesh.py, utility.get_registered_sources (AST + reflection)")
+
+
+GENERATORS = {"KernTrace": gen_KernTrace, "StyleTemp": gen_StyleTemp, "Const": gen_Const, "Units": gen_Units, "Defaults": gen_Defaults, "StyleSchema": gen_StyleSchema, "Attr": gen_Attr, "PathPad": gen_PathPad, "Exits": gen_Exits, "Ndim": gen_Ndim, "Tol": gen_Tol, "CylSegGen": gen_CylSegGen, "ExcSync": gen_ExcSync, "InOut": gen_InOut}
 
 
 def main():
